@@ -422,3 +422,18 @@ func WriteStats(id string) { statsFor(id).write() }
 
 // FirstN truncates s to n bytes.
 func FirstN(s string, n int) string { return truncate(s, n) }
+
+// FirstBytes truncates b to n bytes.
+func FirstBytes(b []byte, n int) []byte {
+	if len(b) > n {
+		return b[:n]
+	}
+	return b
+}
+
+// FuzzFail records a failing native-fuzz input as an ordinary JSON replay case and fails the test.
+func FuzzFail(t *testing.T, id string, f *Fail, c interface{}) {
+	enc, _ := json.Marshal(c)
+	writeFail(id, f, enc)
+	t.Fatalf("%s violated [%s]: %s\ncase: %s", id, f.Class, f.Msg, truncate(string(enc), 2000))
+}
